@@ -139,7 +139,8 @@ CHECKS['C05'] = dict(
 CHECKS['C18'] = dict(
     technique='TLA+ spec Format.tla (ParseFormat, DetectHeaders, Suggest): TLC checks PositionBijection / Rejects* / SuggestRoundTrips on '
               'every token sequence and header row up to the width bound; every state replayed into parse_format_string, '
-              'auto_detect_csv_format and tally inspect',
+              'auto_detect_csv_format and tally inspect; code -> spec: random concrete format strings (tokenised by the harness) and the '
+              'suggestions of inspect on real-world header wordings, validated by Trace_Format.tla (tamper control)',
     text='Exhaustive up to width 4 (quick) / 5 (thorough): every arrangement of tokens and every header row; accepted/rejected, columns, date '
          'format and sign mode compared; inspect\'s printed suggestion re-parsed and compared with its own report.',
     note='date formats without commas; header texts from a vocabulary with known detection classes',
